@@ -9,7 +9,7 @@ from twisted.internet.interfaces import (ITransport, IProducer, IConsumer,
                                          IStreamClientEndpoint,
                                          IStreamServerEndpoint,
                                          )
-from twisted.internet.error import ConnectionDone
+from twisted.internet.error import ConnectionDone, NoProtocol
 from automat import MethodicalMachine
 from .._interfaces import ISubChannel, IDilationManager
 from ..util import provides
@@ -145,6 +145,11 @@ class SubChannel:
         pass
 
     @m.input()
+    def refused(self):
+        # the application's factory declined to build a protocol
+        pass
+
+    @m.input()
     def wormhole_closed(self):
         # Dilation has stopped for good: whatever state we are in, this
         # subchannel is over
@@ -248,6 +253,8 @@ class SubChannel:
     # we won't ever see an OPEN, since L4 will log+ignore those for us
     closing.upon(local_data, enter=closing, outputs=[error_closed_write])
     closing.upon(local_close, enter=closing, outputs=[error_closed_close])
+    # IProtocolFactory.buildProtocol() may return None to refuse a connection
+    unconnected.upon(refused, enter=closed, outputs=[send_close, close_subchannel])
     # the wormhole is closing: end the subchannel from wherever it is (there
     # is nobody left to send a CLOSE to)
     unconnected.upon(wormhole_closed, enter=closed, outputs=[close_subchannel])
@@ -371,6 +378,11 @@ class SubchannelConnectorEndpoint:
         sc = SubChannel(scid, self._manager, self._host_addr, peer_addr)
         self._manager.subchannel_local_open(scid, sc)
         p = protocolFactory.buildProtocol(peer_addr)
+        if p is None:
+            # like Twisted's own endpoints: the factory refused, so take
+            # back the OPEN we have just sent
+            sc.refused()
+            raise NoProtocol()
         sc._set_protocol(p)
         p.makeConnection(sc)  # set p.transport = sc and call connectionMade()
         return p
@@ -434,6 +446,11 @@ class SubchannelDemultiplex:
 
     def _connect(self, factory, t, peer_addr):
         p = factory.buildProtocol(peer_addr)
+        if p is None:
+            # the listener refuses this connection: close the subchannel
+            # instead of leaving it half set up for ever
+            t.refused()
+            return
         t._set_protocol(p)
         p.makeConnection(t)
         t._deliver_queued_data()
